@@ -149,4 +149,14 @@ CHECKS = {
                 "events; non-trivial = a cancel or a failing first attempt",
         "assumptions": ["gauge/counter pairing is modelled abstractly (Model/Metrics.v); the tie is the registry-vs-reality comparison of this run"],
     },
+    "C12": {
+        "modules": ["p_c12"],
+        "rule": "seeded scenarios on real retry / poll / throttle / timeout executors (over sync or a manual delegate that forgets finished "
+                "work): 1-3 submissions with weakly referenced callable, argument, result and future; fates {completed, cancelled while "
+                "queued, cancelled in flight, still pending when the executor is dropped}; the user drops references and gc.collect() runs "
+                "at scheduler-chosen points; ending {shutdown, drop the last executor reference, interpreter-exit hook}; monitor: weakrefs "
+                "of finished futures are dead while the executor lives on, pending futures are completed after the drop, the worker thread "
+                "exits; non-trivial = a preemption occurred",
+        "assumptions": ["PARTIAL: GC/finalisation timing is CPython's; the worker-loop protocol is proved on Model/Refs.v"],
+    },
 }
